@@ -1,6 +1,6 @@
 /-
   OFV.Lemmas.Sw3Flow — a multipart flow-stats reply in which, after ANY list of decodable records, comes a record whose
-  MATCH decoder panics (a class-1 TLV of a field without a decoder body): the record decoder panics, the record loop
+  MATCH decoder panics (a TLV of a class `DecodeMatchField` does not know): the record decoder panics, the record loop
   panics, Parse recovers and rejects the reply.  Used by OFV/Props/C04c.lean.
 -/
 import OFV.Model.All
